@@ -1,5 +1,5 @@
 (* C04 — elision '...' matches any run of elements and reproduces it unchanged. *)
-From GP Require Import Tree Meta Match Replace ListMatch MatchFacts.
+From GP Require Import Tree Meta Match Replace ListMatch MatchFacts MatchComplete ListMemo MatchFrame.
 From Coq Require Import Lia.
 
 (* [Sol ps ts d rs d']: the list ts decomposes, in order, into the explicit elements of the
@@ -86,20 +86,47 @@ Print Assumptions C04_for_dots.
 
 (* ---- pairing of '+' elisions with '-' elisions (connectDots) ---- *)
 (* a '+' elision with no '-' elision at or before it is a compile error (after fix 713ef99), never a
-   silently dropped run *)
-Theorem C04_assoc_error_not_silent : forall lhs rhs,
-  connect_dots lhs rhs = None <-> exists r, In r rhs /\ best_le lhs r = None.
+   silently dropped run; the implicit "..." in front of a statement patch does not count for an
+   elision written in the '+' section (after fix e818090) *)
+Theorem C04_assoc_error_not_silent : forall lead lhs rhs,
+  connect_dots lead lhs rhs = None <-> exists r, In r rhs /\ pick lead lhs r = None.
 Proof.
-  intros lhs rhs. induction rhs as [|r rhs IH]; simpl.
+  intros lead lhs rhs. induction rhs as [|r rhs IH]; simpl.
   - split; [discriminate|intros [r [[] _]]].
-  - destruct (best_le lhs r) as [l|] eqn:B.
-    + destruct (connect_dots lhs rhs) as [m|] eqn:C.
+  - destruct (pick lead lhs r) as [l|] eqn:B.
+    + destruct (connect_dots lead lhs rhs) as [m|] eqn:C.
       * split; [discriminate|]. intros [r' [[<-|Hin] Hb]]; [congruence|].
         assert (Some m = None) as E by (apply IH; exists r'; auto). discriminate.
       * split; [intros _|reflexivity]. destruct (proj1 IH eq_refl) as [r' [Hin Hb]]. exists r'. auto.
     + split; [intros _; exists r; auto|reflexivity].
 Qed.
 Print Assumptions C04_assoc_error_not_silent.
+
+(* ... and what an elision of the '+' section is tied to: the closest '-' elision at or before it,
+   which is the implicit leading one only for the elision at that very place (the statements in front
+   of the patch are never carried into it) *)
+Theorem C04_assoc_is_closest_before : forall lead lhs r l,
+  pick lead lhs r = Some l ->
+  best_le lhs r = Some l /\ (dp_id l = lead -> same_place l r = true).
+Proof.
+  intros lead lhs r l. unfold pick. destruct (best_le lhs r) as [b|]; [|discriminate].
+  destruct (N.eqb (dp_id b) lead) eqn:E; cbn [andb].
+  - destruct (same_place b r) eqn:P; cbn [negb]; [|discriminate]. intros H; inversion H; subst. auto.
+  - intros H; inversion H; subst. split; [reflexivity|]. intros Hl. apply N.eqb_neq in E. contradiction.
+Qed.
+Print Assumptions C04_assoc_is_closest_before.
+
+(* the layout of repo fix e818090: '+ ...' on line 2 ahead of the only explicit '- ...' on line 4 of a
+   statement patch whose implicit leading elision (id 1) is at line 1, column 1: rejected *)
+Example C04_plus_elision_before_minus_elision_ex :
+  let lhs := [{| dp_id := 1; dp_line := 1; dp_col := 1 |}; {| dp_id := 2; dp_line := 4; dp_col := 4 |};
+              {| dp_id := 3; dp_line := 6; dp_col := 1 |}] in
+  let rhs := [{| dp_id := 1; dp_line := 1; dp_col := 1 |}; {| dp_id := 2; dp_line := 2; dp_col := 4 |};
+              {| dp_id := 3; dp_line := 6; dp_col := 1 |}] in
+  connect_dots 1 lhs rhs = None /\
+  connect_dots 1 lhs [{| dp_id := 1; dp_line := 1; dp_col := 1 |}; {| dp_id := 2; dp_line := 5; dp_col := 4 |};
+                      {| dp_id := 3; dp_line := 6; dp_col := 1 |}] = Some [(1, 1); (2, 2); (3, 3)]%N.
+Proof. vm_compute. split; reflexivity. Qed.
 
 (* ---- a limit of the matcher, refuted at full strength (known finding F1b) ----
    A list matcher hands its FIRST decomposition to the enclosing pattern and is never
@@ -128,3 +155,24 @@ Example C04_ex :
   option_map d_dots (mtch mk (Slice T_S_ast_Expr [dots 1; a]) (Slice T_S_ast_Expr [a; b; a]) d0)
   = Some [(1, [a; b])].
 Proof. vm_compute. reflexivity. Qed.
+
+(* The list matcher as the code runs it since fix 58040e3: places (remaining sections, remaining
+   elements, what the metavariables of the remaining sections stand for) from which the remaining
+   sections were found not to match are remembered and not searched again.  For the engine's matcher
+   this returns exactly what the plain search returns - the same answer and the same match data -
+   because the outcome of a match depends on the data only through what the pattern's metavariables
+   stand for (mtch_frame).  [placeb] is any test that says "equal" only of equal places. *)
+Theorem C04_memoised_search_is_the_plain_search : forall mk tp placeb ps ts d,
+  (forall a b, placeb a b = true -> a = b) ->
+  fst (mlm val val data _ (dots_item tp) (mtch mk) push_dots (lkey mk []) placeb ps ts d [])
+  = ml val val data (dots_item tp) (mtch mk) push_dots ps ts d.
+Proof. exact engine_memo_is_plain_search. Qed.
+Print Assumptions C04_memoised_search_is_the_plain_search.
+
+(* ... the frame property itself: matching a pattern reads and extends the match data only at the
+   pattern's own metavariables; two data that agree there give the same outcome and still agree *)
+Theorem C04_match_depends_on_its_metavariables_only : forall mk p t d1 d2 d1' L,
+  mtch mk p t d1 = Some d1' -> agree (mvs mk p ++ L) d1 d2 ->
+  exists d2', mtch mk p t d2 = Some d2' /\ agree (mvs mk p ++ L) d1' d2'.
+Proof. exact mtch_frame. Qed.
+Print Assumptions C04_match_depends_on_its_metavariables_only.
